@@ -530,10 +530,14 @@ def sc_tables(ctx):
                   'coarse field is not a zero field on the coarse grid with '
                   'the fine dtype', ctx.where(sm, n))
     # coarse eta aliasing (T-aniso)
+    from ..core.template import find as _find
+    cmf = _find(f'_c_ = VolumeModel({ps[0]}.case, _g_)', fn)
+    ctx.anchor(len(cmf) == 1, 'coarse model object in restriction()')
+    cmn = cmf[0][1]['_c_']
     for comp, idx in (('eta_y', 0), ('eta_z', 1)):
         sts = [n for n in ast.walk(fn) if isinstance(n, ast.Assign) and
-               ast.unparse(n.targets[0]) == f'cmodel.{comp}']
-        ctx.anchor(len(sts) == 2, f'two assignments of cmodel.{comp}')
+               ast.unparse(n.targets[0]) == f'{cmn}.{comp}']
+        ctx.anchor(len(sts) == 2, f'two assignments of {cmn}.{comp}')
         for case, flags in ANISO.items():
             chosen = []
             for n in sts:
@@ -542,34 +546,28 @@ def sc_tables(ctx):
                 if all(bool(fe.ev(t)) == pol for t, pol in gs):
                     chosen.append(ast.unparse(n.value))
             want = (f'_restrict_model_parameters({ps[0]}.{comp}, {ps[3]})'
-                    if flags[idx] else 'cmodel.eta_x')
+                    if flags[idx] else f'{cmn}.eta_x')
             ctx.check('C04.M.aniso', f'restriction cmodel.{comp} case {case}',
                       chosen == [want], f'coarse {comp} is {chosen}, the '
                       f'anisotropy table says `{want}`', ctx.where(sm, sts[0]))
     for comp in ('eta_x', 'zeta'):
         sts = [ast.unparse(n.value) for n in ast.walk(fn)
                if isinstance(n, ast.Assign) and
-               ast.unparse(n.targets[0]) == f'cmodel.{comp}']
+               ast.unparse(n.targets[0]) == f'{cmn}.{comp}']
         ctx.check('C04.M.aniso', f'restriction cmodel.{comp}', sts == [
             f'_restrict_model_parameters({ps[0]}.{comp}, {ps[3]})'],
             f'coarse {comp} is {sts}', ctx.where(sm, fn))
 
 
 def prolongator_weights(ctx):
+    from ..core.template import find, has
     sm = ctx.repo.mod(SOLVER)
     f = sm.method('RegularGridProlongator', '_set_edges_and_weights')
-    nd = [n for n in ast.walk(f) if isinstance(n, ast.Call) and
-          ast.unparse(n.func) == 'norm_distances.append']
-    ctx.anchor(len(nd) == 1, 'norm_distances.append(...) in the prolongator')
-    x, gi, gi1 = sp.symbols('x g_i g_i1')
-    lf = Lifter({'x': x, 'grid[i]': gi, 'grid[i + 1]': gi1}, {}, sm.rel,
-                strict=True)
-    y = lf.lift(nd[0].args[0])
+    nd = find('_l_.append((_x_ - _g_[_i_]) / (_g_[_i_ + 1] - _g_[_i_]))', f)
     ctx.check('C04.P.weights', 'RegularGridProlongator normalised distance',
-              equal(y, (x - gi) / (gi1 - gi)),
-              f'normalised distance is `{y}`, linear interpolation needs '
-              '(x - g[i])/(g[i+1] - g[i])', ctx.where(sm, nd[0]),
-              obligation=True, sample={'lifted': str(y)})
+              len(nd) == 1, 'normalised distance is not '
+              '(x - g[i])/(g[i+1] - g[i])', ctx.where(sm, f),
+              obligation=True, sample={'match': nd[0][1] if nd else None})
     wh = [n for n in ast.walk(f) if isinstance(n, ast.Call) and
           ast.unparse(n.func) == 'np.where']
     ctx.anchor(len(wh) == 1 and len(wh[0].args) == 3, 'np.where weight choice')
@@ -579,24 +577,42 @@ def prolongator_weights(ctx):
     ctx.anchor(len(names) == 1, 'normalised distance variable in np.where')
     lf2 = Lifter({names[0].id: yi}, {}, sm.rel, strict=True)
     la, lb = lf2.lift(a), lf2.lift(b)
+    lower_sel = isinstance(cond, ast.Compare) and isinstance(
+        cond.ops[0], ast.Eq)
     ctx.check('C04.P.weights', 'RegularGridProlongator corner weights',
-              equal(la + lb, 1) and equal(lb, yi) and
-              ast.unparse(cond).replace(' ', '') == 'ei==i',
+              equal(la + lb, 1) and equal(lb, yi) and lower_sel,
               f'weights `{la}` (lower) and `{lb}` (upper) must be 1-y and y '
               '(sum to one)', ctx.where(sm, wh[0]), obligation=True,
               sample={'lower': str(la), 'upper': str(lb)})
+    # the selector compares the corner index with the lower index
+    if nd and lower_sel:
+        ivar = nd[0][1]['_i_']
+        zips = [n for n in ast.walk(f) if isinstance(n, ast.For) and
+                isinstance(n.iter, ast.Call) and ast.unparse(
+                    n.iter.func) == 'zip' and isinstance(n.target, ast.Tuple)
+                and any(wh[0] is x for x in ast.walk(n))]
+        ctx.check('C04.P.weights', 'RegularGridProlongator lower corner '
+                  'selected by the interval index', len(zips) == 1 and
+                  len(zips[0].target.elts) == 3 and {ast.unparse(
+                      cond.left), ast.unparse(cond.comparators[0])} == {
+                      zips[0].target.elts[0].id, zips[0].target.elts[1].id},
+                  'weight 1-y is not selected where the corner index equals '
+                  'the lower interval index', ctx.where(sm, wh[0]))
     # clamp of the interval index (A3)
-    txt = ast.unparse(f)
-    ctx.check('C04.P.weights', 'RegularGridProlongator interval index',
-              'np.searchsorted(grid, x) - 1' in txt and 'i[i < 0] = 0' in txt
-              and 'i[i > grid.size - 2] = grid.size - 2' in txt,
+    ok = False
+    ss = find('_i_ = np.searchsorted(_g_, _x_) - 1', f)
+    if ss:
+        i_, g_ = ss[0][1]['_i_'], ss[0][1]['_g_']
+        ok = has(f'{i_}[{i_} < 0] = 0', f) and has(
+            f'{i_}[{i_} > {g_}.size - 2] = {g_}.size - 2', f)
+    ctx.check('C04.P.weights', 'RegularGridProlongator interval index', ok,
               'interval index is not searchsorted-1 clamped to [0, size-2]',
               ctx.where(sm, f))
     call = sm.method('RegularGridProlongator', '__call__')
-    ctxt = ast.unparse(call)
+    cp = au.params(call)
     ctx.check('C04.P.weights', 'RegularGridProlongator application',
-              'result += np.asarray(values[edge_indices]) * self.weight[n, :]'
-              in ctxt, 'interpolation is not sum over corners of value * '
+              has(f'_r_ += np.asarray({cp[1]}[_e_]) * self.weight[_n_, :]',
+                  call), 'interpolation is not sum over corners of value * '
               'weight', ctx.where(sm, call))
 
 
